@@ -67,6 +67,15 @@ func exactAlloc(entry string, inp []byte, bm string) int64 {
 	var cp *[]byte
 	if inp != nil {
 		c := append([]byte{}, inp...)
+		if h := windowHash(inp); h%8 == 3 && len(inp) <= 4096 && !parMode && recvBuf != nil { // the same shape as in runDec
+			copy(recvBuf, inp)
+			c = recvBuf[:len(inp)]
+			defer func() {
+				for i := 0; i < len(inp)+64 && i < len(recvBuf); i++ {
+					recvBuf[i] = 0xA5
+				}
+			}()
+		}
 		cp = &c
 	}
 	m := nas.NewMessage()
@@ -136,6 +145,23 @@ func runDec(entry string, inp []byte, big int, bm string, proj bool) Dec {
 			c = make([]byte, len(inp))
 			copy(c, inp)
 		}
+		// one input in eight is a window at the head of a large receive buffer (capacity 8 MiB): work and memory are bounded by
+		// the LENGTH of the input, whatever lies behind it
+		if h := windowHash(inp); h%8 == 3 && len(inp) <= 4096 && !parMode {
+			if recvBuf == nil {
+				recvBuf = make([]byte, 8<<20)
+				for i := range recvBuf {
+					recvBuf[i] = 0xA5
+				}
+			}
+			copy(recvBuf, inp)
+			c = recvBuf[:len(inp)]
+			defer func() { // restore the sentinel behind / under the window for the next user
+				for i := 0; i < len(inp)+64 && i < len(recvBuf); i++ {
+					recvBuf[i] = 0xA5
+				}
+			}()
+		}
 		cp = &c
 	}
 	m := nas.NewMessage()
@@ -171,6 +197,17 @@ func runDec(entry string, inp []byte, big int, bm string, proj bool) Dec {
 		}
 	}
 	return e
+}
+
+var recvBuf []byte
+var parMode bool // set by the concurrent modes: the receive buffer is one per process
+
+func windowHash(inp []byte) int {
+	h := len(inp)
+	for _, x := range inp {
+		h = (h*31 + int(x)) & 0xffffff
+	}
+	return h
 }
 
 // spare returns a copy of inp that is a view of a LARGER array: 64 octets of spare capacity behind it, filled with a
@@ -733,6 +770,7 @@ type Shared struct {
 // runPar: N goroutines, each walking the whole case list from its own starting point with its own
 // writer; a few messages decoded up front are shared and only read (projected, re-encoded).
 func runPar(cases []Case, prefix string, n int, rounds int) {
+	parMode = true
 	interleaving = false
 	type sh struct {
 		inp []byte
